@@ -145,6 +145,19 @@ def r05_2(chk, drv, site, tag):
         idx = norm(scat[0].targets[0])
         ok = idx == 'eigvecs[%s,:]' % used
         src = norm(scat[0].value)
+        # the scattered array is the solver's vector output, possibly through aliases / column slices (peigvecs = eigvecs[:, :n])
+        sv = scat[0].value
+        hops = 0
+        while hops < 4 and not (src == vec or src.startswith(vec + '[')):
+            base = sv.value if isinstance(sv, ast.Subscript) else sv
+            if not isinstance(base, ast.Name):
+                break
+            rd_ = drv.reaching(base.id, cfg.node_of_stmt(scat[0]) if hops == 0 else rd_[0])
+            if len(rd_) != 1 or not isinstance(cfg.nodes[rd_[0]], ast.Assign) or len(cfg.nodes[rd_[0]].targets) != 1 or not isinstance(cfg.nodes[rd_[0]].targets[0], ast.Name):
+                break
+            sv = cfg.nodes[rd_[0]].value
+            src = norm(sv)
+            hops += 1
         ok = ok and (src == vec or src.startswith(vec + '['))
         shape = alloc[0].value.args[0]
         if isinstance(shape, ast.Tuple) and len(shape.elts) == 2:
